@@ -51,4 +51,5 @@ macro_rules! harness {
 }
 
 pub mod c02;
+pub mod c03;
 pub mod c06;
